@@ -89,6 +89,10 @@ def gen_inputs(c):
          ("long70k", b"y" * 70000 + b"\n"),
          ("long200k", b"x" * 200000 + b"\n"),
          ("long200k-mid", b"a\n" + b"x" * 200000 + b"\nb\n" + b"x" * 200000 + b"\n"),
+         # a long line followed by a longer one: the second is incomplete when the reader's 1 MiB buffer is full and
+         # starts in its first half but not at offset 0
+         ("long300k-900k", b"p" * 300000 + b"\n" + b"q" * 900000 + b"\n"),
+         ("long500k-600k-700k", b"p" * 500000 + b"\n" + b"q" * 600000 + b"\n" + b"r" * 700000 + b"\n"),
          ("mix", b"".join((b"q" * rng.choice((1, 50, 5000, 9000, 70000))) + b" %d\n" % i for i in range(25))),
          # line lengths at the case splits of the model/code: stream buffer 8192 (buffered vs direct write),
          # pipe capacity 65536, both pipes together 131072 (with the newline: -1, 0, +1 around each)
@@ -177,7 +181,12 @@ def run_case(exe, args, data, timeout, stages=None, from_file=False):
                 os.killpg(p.pid, signal.SIGKILL)
             except Exception:
                 p.kill()
-            out, err = p.communicate()
+            if p.stdin is not None and p.stdin.closed:
+                p.stdin = None        # communicate() already closed it (empty input): do not flush it again
+            try:
+                out, err = p.communicate(timeout=10)
+            except Exception:
+                out, err = b"", b""
             status = "timeout"
         tf.flush()
         with open(tf.name, "rb") as f:
@@ -246,6 +255,8 @@ def main(argv):
             if c.tier == "quick" and name in ("distinct9000", "lines5000") and mode in ("block:7", "stdio"):
                 continue
             if name == "records20000" and mode not in ("readall", "block:5000"):
+                continue
+            if name.startswith("long") and "k-" in name and mode not in ("echo", "eager", "readall"):
                 continue
             cases.append(("cache", [], name, data, mode))
             if b"x" * 1000 not in data or mode in ("echo", "eager", "readall"):
